@@ -125,6 +125,98 @@ fn run(sc: &Scenario, rng: &mut rand::rngs::StdRng, free: bool) -> (Vec<Value>, 
     (ev, stop, diverged)
 }
 
+/// Two consumers whose calls overlap in time, built from the public API only: consumer 9's closure holds the drain
+/// (and, in the code as written, the reservoir's swap lock) until the pusher has pushed a second batch; consumer 8
+/// calls consume() meanwhile. Free-running with handshakes: by construction only one thread acts at a time as long as
+/// consume() serialises its callers, so the log order is the real order; a consume() that lets the second consumer in
+/// while the first closure is still running shows up as a `res.swap.pre` in the middle of the first drain.
+fn run_overlap(cap: usize, rng: &mut rand::rngs::StdRng) -> Vec<Value> {
+    use std::sync::atomic::{AtomicBool, Ordering::SeqCst};
+    use std::time::{Duration, Instant};
+    let res = Arc::new(AtomicSamplingReservoir::new(cap));
+    let s = Sched::new(3, true);
+    let k1 = rng.random_range(0..=cap / 2);
+    let k2 = rng.random_range(1..=(cap / 2).max(1));
+    let third = rng.random_range(0..2) == 0; // a third batch after the first consume returned
+    let flag = || Arc::new(AtomicBool::new(false));
+    let (p1_done, a_in, b_in, p2_done, a_ret, b_ret) = (flag(), flag(), flag(), flag(), flag(), flag());
+    let wait = |f: &AtomicBool, ms: u64| {
+        let t = Instant::now();
+        while !f.load(SeqCst) && t.elapsed() < Duration::from_millis(ms) {
+            std::thread::sleep(Duration::from_micros(200));
+        }
+        f.load(SeqCst)
+    };
+    let mut hs = vec![];
+    {
+        let (r, p1_done, a_in, b_in, p2_done, a_ret) = (res.clone(), p1_done.clone(), a_in.clone(), b_in.clone(), p2_done.clone(), a_ret.clone());
+        hs.push(s.spawn(1, move || {
+            let mut i = 0;
+            for _ in 0..k1 {
+                i += 1;
+                r.push(val(1, i));
+                metrics::verif::point("push.done.post", &[val(1, i) as i64]);
+            }
+            p1_done.store(true, SeqCst);
+            wait(&a_in, 20_000);
+            // give the second consumer time to get in, if the implementation lets it
+            wait(&b_in, 100);
+            for _ in 0..k2 {
+                i += 1;
+                r.push(val(1, i));
+                metrics::verif::point("push.done.post", &[val(1, i) as i64]);
+            }
+            p2_done.store(true, SeqCst);
+            if third {
+                wait(&a_ret, 20_000);
+            }
+        }));
+    }
+    let log_drain = |drain: &mut metrics_util::storage::reservoir::Drain<'_>| {
+        let vals: Vec<f64> = drain.by_ref().collect();
+        let rate = drain.sample_rate();
+        let mut a: Vec<i64> = vec![(rate * 1_000_000.0).round() as i64];
+        a.extend(vals.iter().map(|v| if v.fract() == 0.0 && v.abs() < 1e9 { *v as i64 } else { -1 }));
+        metrics::verif::point("drain.post", &a);
+    };
+    {
+        let (r, p1_done, a_in, p2_done, a_ret, b_ret) = (res.clone(), p1_done.clone(), a_in.clone(), p2_done.clone(), a_ret.clone(), b_ret.clone());
+        hs.push(s.spawn(9, move || {
+            wait(&p1_done, 20_000);
+            r.consume(|mut drain| {
+                a_in.store(true, SeqCst);
+                wait(&p2_done, 20_000);
+                log_drain(&mut drain);
+            });
+            metrics::verif::point("consume.ret.post", &[9]);
+            a_ret.store(true, SeqCst);
+            wait(&b_ret, 20_000);
+            r.consume(|mut drain| log_drain(&mut drain));
+            metrics::verif::point("consume.ret.post", &[9]);
+        }));
+    }
+    {
+        let (r, a_in, b_in, b_ret) = (res.clone(), a_in.clone(), b_in.clone(), b_ret.clone());
+        hs.push(s.spawn(8, move || {
+            wait(&a_in, 20_000);
+            r.consume(|mut drain| {
+                b_in.store(true, SeqCst);
+                log_drain(&mut drain);
+            });
+            metrics::verif::point("consume.ret.post", &[8]);
+            b_ret.store(true, SeqCst);
+        }));
+    }
+    s.wait_all();
+    for h in hs {
+        let _ = h.join();
+    }
+    let mut ev = vec![json!({"p": 0, "ev": "reset", "a": [cap]})];
+    ev.extend(s.take_log().iter().map(|e| e.json()));
+    ev.push(json!({"p": 0, "ev": "overlap.final", "a": [k1 + k2, 3]}));
+    ev
+}
+
 /// single-threaded program: pushes and consumes interleaved in program order (one logical process does both)
 fn run_seq(cap: usize, rng: &mut rand::rngs::StdRng) -> Vec<Value> {
     let res = Arc::new(AtomicSamplingReservoir::new(cap));
@@ -221,6 +313,17 @@ fn main() {
             }
             summary["runs"] = json!(n);
             summary["diverged"] = json!(div);
+        }
+        "overlap" => {
+            let runs: usize = args.num("runs", 50);
+            for _ in 0..runs {
+                let ev = run_overlap(cap.max(2), &mut rng);
+                distinct.insert(ev.iter().map(|e| format!("{}{};", e["p"], e["ev"].as_str().unwrap())).collect::<String>());
+                for e in &ev {
+                    w.put(e);
+                }
+            }
+            summary["runs"] = json!(runs);
         }
         "stat" => {
             // retention frequency of each stream position, cap = 2, n = 5: informational only
